@@ -76,6 +76,8 @@ def base_cases(r, tier):
     out.append({"name": "one-xattr-refused", "spec": xspec, "pre": [], "bs": "4096", "expect_fail": False,
                 "rules": [{"id": "x", "sys": "fsetxattr", "suffix": "/dst/m2", "action": "fault", "errno": 28}]})
     out.append({"name": "multi-block-options", "spec": copy.deepcopy(spec), "pre": [], "bs": "4096", "expect_fail": False, "opts": ["--no-perms", "--fsync", "--reflink", "never"]})
+    # the largest block size there is (what --no-progress selects; the library's default): one "block" per file, for both drivers
+    out.append({"name": "multi-block-no-progress", "spec": copy.deepcopy(spec), "pre": [], "bs": "4096", "expect_fail": False, "opts": ["--no-progress"], "per": 24 if tier == "quick" else 120})
     # T8: numbered backups of files whose names are prefixes of one another (rotated logs): every overwrite renames a neighbour
     names = ["log", "log.1", "log.1.gz", "log.2", "README", "README.md", "f1", "f10", "f100", "f1.~1~x"]
     spec8 = [{"p": "src", "k": "d"}] + [F("src/" + n, r.choice([0, 100, 5000, 70000]), 50 + i, mode=0o644) for i, n in enumerate(names)]
@@ -130,6 +132,12 @@ def base_cases(r, tier):
     out.append({"name": "dangling-link-chain-to-sibling-destination", "spec": copy.deepcopy(spec12), "pre": pre20, "bs": "4096", "expect_fail": False, "per": 24 if tier == "quick" else 120})
     pre21 = [{"p": "dst", "k": "d"}, {"p": "dst/src", "k": "d"}, {"p": "dst/src/a", "k": "l", "target": "@ROOT@/dst/src/b"}]
     out.append({"name": "absolute-dangling-link-to-sibling-destination", "spec": copy.deepcopy(spec12), "pre": pre21, "bs": "4096", "expect_fail": False, "per": 24 if tier == "quick" else 120})
+    pre22 = [{"p": "dst", "k": "d"}, {"p": "dst/src", "k": "d"}, {"p": "dst/src/e", "k": "l", "target": "@ROOT@/dst/src/a"}]
+    out.append({"name": "absolute-dangling-link-to-earlier-sibling-destination", "spec": copy.deepcopy(spec12), "pre": pre22, "bs": "4096", "expect_fail": False, "per": 24 if tier == "quick" else 120})
+    # (sources named one by one, so that the link's target is queued just before the link itself)
+    pre23 = [{"p": "dst", "k": "d"}, {"p": "dst/a", "k": "l", "target": "@ROOT@/dst/b"}]
+    out.append({"name": "absolute-dangling-link-target-queued-first", "spec": copy.deepcopy(spec12), "pre": pre23, "bs": "4096", "expect_fail": False, "per": 24 if tier == "quick" else 120,
+                "tail": ["src/b", "src/a", "dst"]})
     # T15: ... and the same through a link whose target does not exist yet (it is about to be created by this very run), and with
     # backups (where the rename of one name races with the look at the other)
     pre16 = [{"p": "dst", "k": "d"}, {"p": "dst/src", "k": "d"}, {"p": "dst/src/a", "k": "l", "target": "b"}, {"p": "dst/src/c", "k": "l", "target": "./e"}]
@@ -197,12 +205,28 @@ def norm_snapshot(post, prefix="dst"):
     return out
 
 
+def content_oracle(case, post, run, res):
+    """All schedules agreeing is not enough if they agree on something wrong: on exit 0 every regular file of `src` that has a
+    regular file as its counterpart must have its bytes there (the sources are part of the same snapshot)."""
+    if not run.exit0 or case["args"][-3:] != ["-r", "src", "dst"]:
+        return
+    pref = "dst/src/" if any(e["p"] == "dst" for e in case["pre"]) else "dst/"
+    for p_, rec in post.items():
+        if p_.startswith("src/") and rec["k"] == "f":
+            d = post.get(pref + p_[4:])
+            if d is not None and d["k"] == "f" and (d.get("sha") != rec.get("sha") or d["size"] != rec["size"]):
+                res["viol"].append({"sig": "%s:exit0-wrong-content:%s" % (case["driver"], case["name"]),
+                                    "what": "exit 0 but %s does not hold the bytes of %s (size %d vs %d) [%s:%s, workers %d, sched %s]"
+                                            % (pref + p_[4:], p_, d["size"], rec["size"], case["driver"], case["name"], case["workers"], case["plan"].get("sched"))})
+                return
+
+
 def run_case(case):
     res = {"evals": [], "viol": [], "inconc": [], "counters": {}, "data": None}
     with core.Sandbox(case["fs"], "c06") as sb:
         root = sb.root
         tree.materialize(root, tree.fix_mtimes(case["spec"]))
-        tree.materialize(root, tree.fix_mtimes(case["pre"], 1_500_000_000_000_000_000))
+        tree.materialize(root, tree.fix_mtimes([dict(e, target=e["target"].replace("@ROOT@", root)) if e.get("k") == "l" else e for e in case["pre"]], 1_500_000_000_000_000_000))
         if case.get("plain"):
             old_umask = os.umask(0o027)
             try:
@@ -213,6 +237,7 @@ def run_case(case):
                 res["inconc"].append("run-" + run.verdict)
                 return res
             post = tree.snapshot(root)
+            content_oracle(case, post, run, res)
             res["counters"]["runs"] = 1
             res["counters"]["sched:unsupervised"] = 1
             res["data"] = {"group": case["group"], "exit0": run.exit0, "snap": norm_snapshot(post) if run.exit0 else None, "sig": "unsupervised",
@@ -230,6 +255,7 @@ def run_case(case):
             res["inconc"].append("run-" + run.verdict)
             return res
         post = tree.snapshot(root)
+        content_oracle(case, post, run, res)
         ev = run.events
         sig, nmut = monitors.interleaving_signature(ev, root)
         tag = "%s:%s" % (case["driver"], case["name"])
